@@ -43,6 +43,7 @@ def coverage(prop, executed, rejected, tier):
         "engines": {k[7:]: int(v) for k, v in sorted(total.items()) if k.startswith("engine:")},
         "item_families": {k[7:]: int(v) for k, v in sorted(total.items()) if k.startswith("family:")},
         "node_orderings": {k[8:]: int(v) for k, v in sorted(total.items()) if k.startswith("permute:")},
+        "histories_with_debug_logging": int(total.get("env:debug-logging", 0)),
         "faults_armed_fired": {k: int(v) for k, v in sorted(total.items()) if k.startswith("fault:")},
         "engine_calls": int(total.get("engine_calls", 0)),
         "engine_natural_failures": int(total.get("engine_failures", 0)),
